@@ -20,4 +20,6 @@ func simYield(site string, obj interface{}) {}
 
 func simStep(node jparse.Node) error { return nil }
 
-func simLockWait(mu *sync.RWMutex, write bool) {}
+// registryMutex is the type of the mutex that guards the
+// package-level registry.
+type registryMutex = sync.RWMutex
